@@ -773,9 +773,16 @@ func (grp *Group) UpdateQuotaLimits(resourceLimits Resources) error {
 		grp.MemoryLimit = resourceLimits.Memory.Limit
 	}
 	if resourceLimits.CPU != nil {
+		// keep the allowed cpu set of the group, it is only changed
+		// when the new limits name one
+		var cpuSet []int
+		if grp.CPULimit != nil {
+			cpuSet = grp.CPULimit.CPUSet
+		}
 		grp.CPULimit = &GroupQuotaCPU{
 			Count:      resourceLimits.CPU.Count,
 			Percentage: resourceLimits.CPU.Percentage,
+			CPUSet:     cpuSet,
 		}
 	}
 	if resourceLimits.CPUSet != nil {
